@@ -67,6 +67,8 @@ FIXED = [
  "fixed: property=C01 5eafae1 AVERAGE_POOL_2D with stride 4 on more than one channel (converted to Conv2D): unit weights of shape [h,w,1,C] for a convolution over C input channels; the weight stream holds a fraction of what the operation fetches (weight_stream_malformed, wrong values) (findings/FX-avgpool-stride4-conv-weights.C01.json)",
  "fixed: property=C02 f93cdf6 AVERAGE_POOL_2D with stride 4 (converted to a convolution) in front of a bypassed RESHAPE: shapes recomputed from the tensors (same class as 92fd28e), the convolution read rows outside its IFM and outside the scratch extent (findings/FX-avgpool-stride4-behind-bypassed-reshape.C02.json)",
  "fixed: property=C03 594a293 SQUARED_DIFFERENCE in front of a bypassed RESHAPE: int32 intermediates and the final MUL took the reshaped shape (same class as 92fd28e), found by the reshape sweep tools/dev/reshape_sweep.py (findings/FX-squared-difference-behind-bypassed-reshape.C03.json)",
+ "fixed: property=C01 7568689 int16 AVERAGE_POOL_2D with stride 4 (converted to a convolution): reduced 16-bit multiplier scaling selected by the default int64 bias; exact average off by one or two steps (findings/FX-int16-avgpool-stride4-reduced-scale.C01.json)",
+ "fixed: property=C04 353b244 RESIZE_BILINEAR half_pixel_centers behind a striped producer (cascade under --optimise Size): the depthwise step following the producer stripe that writes the last IFM row got BLOCKDEP 3; the IFM shape is one row/column short of what the edge replication reads, so not even the address overlap was seen (completes f2e4106) (findings/FX-resize-bilinear-hpc-blockdep-striped.C10.json)",
 ]
 EXTRA = [
  dict(id="F19-non-default-allocator-exceeds-arena-cache", property="C02", status="known",
